@@ -427,12 +427,74 @@ def mutate(rng, text):
     return ''.join(out)
 
 
+def structured_text(rng):
+    """a header in the usual order with variants of every line, then ballots over the declared nicknames: mostly valid"""
+    pick = rng.choice
+    deco = lambda l: pick(['', '', '', ' ', '\t', '\u00a0']) + l + pick(['', '', '', ' ', ' # note', '#x', '\u2003'])
+    nicks = rng.sample(['a', 'b', 'c', 'dd', 'e_1', '7', '\u00e9', 'end', 'x', 'ax', '-'], rng.randint(1, 4))
+    head = [pick(['method=BC'] * 14 + ['method=GPCA2000', 'method=GPCA2000', 'method=blt', 'method=blt', 'method=bc', 'method= BC'])]
+    r = rng.random()
+    qs = ['quota=droop', 'quota=hare', 'quota=25', 'quota=\u0663', 'quota=imperiali', 'quota=hare_rounded', 'quota=droop', 'quota=hare']
+    if r < 0.55:
+        head.append(pick(qs))
+    elif r < 0.8:
+        head += rng.sample([pick(qs), 'quota=mandatory'], 2)
+    elif r < 0.9:
+        head += rng.sample(qs + ['quota=mandatory', 'quota= droop', 'quota=mandatory'], pick([0, 2, 2, 3]))
+    if rng.random() < 0.4:
+        head.append(pick(['seats=2', 'seats= 3', 'seats=-1', 'seats=+4', 'seats=1_0', 'seats=\u0662', 'seats=', 'seats=two', 'seats=0']))
+    if rng.random() < 0.3:
+        head.append(pick(['random=non', 'random=42', 'random=\u0664\u0662', 'random=', 'random=no', 'random=-1', 'random=1_0']))
+    if rng.random() < 0.4:
+        head.append(pick(['title=Some title', 'title=', 'title=a=b', 'title=None', 'title= padded ']))
+    rng.shuffle(head)
+    for k, n in enumerate(nicks):
+        head.append('%s=%s %s' % (pick(['candidate', 'candidate', 'withdrawn']), n, pick(['Ann', 'Bob Lee', 'C.', 'D = d', '\u00c9mile Z'])))
+    ordered = rng.random() < 0.3
+    order = list(nicks)
+    if ordered:
+        rng.shuffle(order)
+        if rng.random() < 0.2:
+            order = order[:-1] + [pick(order)]
+        head.append('order=' + ' '.join(order))
+    if rng.random() < 0.1:
+        head.insert(rng.randrange(len(head)), pick(['', '# c', 'candidate=a Again', 'foo=1', 'method=BC']))
+    body = []
+    for _ in range(rng.randint(0, 5)):
+        mult = pick(['', '', '', '', '2X ', '2X ', '3/2X ', '0.5X ', '1E1X ', '\u0663X ', '1_0/4X ', '1X ', '0X ', '-3/2X '] * 3 + ['X ', '-1X ', '1/0X '])
+        if ordered:
+            m = len(order)
+            ranks = list(range(1, m + 1))
+            rng.shuffle(ranks)
+            items = [str(r) if rng.random() < 0.7 else '-' for r in ranks]
+            if rng.random() < 0.5:      # make the ranks used consecutive from 1
+                used = sorted(int(x) for x in items if x != '-')
+                items = [str(used.index(int(x)) + 1) if x != '-' else '-' for x in items]
+            if rng.random() < 0.1:
+                items.append(pick(['1', '-', 'x', '\u0661']))
+        else:
+            items = [pick(nicks) for _ in range(rng.randint(0, 3))]
+            if rng.random() < 0.07:
+                items.append('zz')
+        line = mult + ' '.join(items)
+        body.append(line if line.strip() else '1X')
+    n = len(body)
+    if rng.random() < 0.12:
+        body.insert(rng.randrange(len(body) + 1), '')
+    count = pick([str(n)] * 8 + [str(n + 1), '0%d' % n, ''.join(chr(0x660 + int(d)) for d in str(n)), ' %d' % n])
+    tail = [pick(['end', 'end', 'end', ' end', 'end ', 'END', 'end # x'])] if rng.random() < 0.93 else []
+    extra = [pick(['', 'junk', 'end', 'a b'])] if rng.random() < 0.3 else []
+    return '\n'.join([deco(l) for l in head] + [deco('ballots=' + count)] + body + tail + extra)
+
+
 def gen_text(rng, gen_election, build_plain):
     """kind, text"""
     import votelib, votelib.io.stv as stv, votelib.io.blt as blt
-    kind = rng.choice(['written', 'written', 'written-intact', 'soup', 'soup', 'ordered', 'blt-mode', 'repeats'])
+    kind = rng.choice(['written', 'written', 'written-intact', 'soup', 'structured', 'structured', 'ordered', 'blt-mode', 'repeats'])
     if kind == 'soup':
         return kind, '\n'.join(rng.choice(SOUP) for _ in range(rng.randint(1, 10)))
+    if kind == 'structured':
+        return kind, structured_text(rng)
     e = gen_stv_case(rng, gen_election)
     objs, votes, system = build(e)
     names = [o if isinstance(o, str) else o.name for o in objs]
